@@ -258,3 +258,31 @@ contract('mapproxy.util.times:parse_httpdate', props=['C20'],
          ensures=['result == httpdate(date)', 'implies(date is None, result is None)'],
          assume_ensures=True,
          trace=[_parse_is_utc])
+
+
+# ---- TileResponse: the answer object carries the validators and the cacheability of the TILE (not of an image derived from it) ----------
+def _tile_response_fields(ex, st, post, result):
+    import z3
+    from pyvc.values import eq
+    tile = post.env['tile']
+    h = st.heap[post.env['self'].ref]
+    t0 = st.trace[0] if st.trace else None
+    def f(name):
+        return ex.opaque_field_at(st, t0, tile, name) if t0 is not None else ex.opaque_field(st, tile, name)
+    g = z3.And(eq(h['timestamp'], f('timestamp')), eq(h['size'], f('size')), eq(h['cacheable'], f('cacheable')))
+    yield ('validators_and_cacheability_are_the_tiles', g,
+           'TileResponse.timestamp / size / cacheable are the values of the tile itself: a tile marked not cacheable (an upstream '
+           'error mapped to a fill image) stays not cacheable whatever was done to its image afterwards (watermark, clipping)')
+    sb = [e for i, e in T.evs(st, 'source_buffer')]
+    ok = len(sb) == 1 and sb[0].recv is not None and sb[0].recv.t.eq(tile.t) and h.get('_buf') is sb[0].result
+    yield ('body_is_the_tiles_buffer', z3.BoolVal(bool(ok)), 'the body is tile.source_buffer(format, image_opts) of that tile')
+
+
+cls('mapproxy.service.tile:TileResponse', fields=dict(tile='opaque', timestamp='opt[real]', size='opt[int]', cacheable='bool', _buf='opaque',
+                                                       format='opaque'))
+contract('mapproxy.service.tile:TileResponse.__init__', props=['C20'],
+         types=dict(tile='opaque', format='opaque', timestamp='opaque', image_opts='opaque'), returns='none', default_callee='opaque',
+         opaque_fields=dict(SVC_FIELDS), stable_fields=['timestamp', 'size', 'cacheable'],
+         opaque_spec={'source_buffer': {'pure': True}, '_format_from_magic_bytes': {'pure': True}},
+         opaque=['_format_from_magic_bytes'], modifies=['self.tile', 'self.timestamp', 'self.size', 'self.cacheable', 'self._buf', 'self.format'],
+         trace=[_tile_response_fields])
